@@ -836,9 +836,9 @@ func ruleEmptyNode(c *Ctx) *RuleResult {
 			r.Instances++
 			key := fmt.Sprintf("S5|%s|return#%d", fname(fn), n)
 			pos := c.pos(ret.Pos())
-			sh := c.nodeShapeOf(ret.Results[0])
+			sh := c.nodeShapeOf(retResults(ret)[0])
 			zero := sh != nil && sh.Zero
-			nilErr := isNilConst(ret.Results[1])
+			nilErr := isNilConst(retResults(ret)[1])
 			switch {
 			case zero && nilErr:
 				if c.deadMatchBranch(b) {
